@@ -9,6 +9,8 @@ examples can instantiate them over ℚ.  ARPACK is the parameter `solver`; its c
 `IsSingularTriplets`) is a hypothesis and is checked on every captured solver output by the `contract` lines.
 -/
 import Mathlib.Algebra.Order.Field.Rat
+import Mathlib.Data.Matrix.Mul
+import Mathlib.Algebra.BigOperators.Fin
 import SkNet.Lemmas.EmbeddingSpectral
 import SkNet.Lemmas.EmbeddingNormalize
 import SkNet.Lemmas.EmbeddingGsvd
@@ -71,6 +73,47 @@ theorem laplacian_operator_denote (F : Fn α) (n : Nat) (hn : 0 < n) (a : Mat α
     vget (lapInit F n a reg true).normDiag i = pinv (F.sqrt (Spec.degReg n a reg i)) := by
   refine ⟨lapMatvec_plain F n hn a reg hreg x i hi, lapMatvec_normalized F n hn a reg hreg x i hi, ?_⟩
   rw [lapInit_normDiag F n a reg i hi, degReg_eq n hn]
+
+/-! ### the graph `Spectral.fit` works on -/
+
+/-- **routing and symmetry** (`get_adjacency(allow_directed=False)`): the input is treated as a biadjacency matrix iff
+    this is forced, or it is not square, or it is not symmetric; the adjacency matrix handed to the Laplacian is then
+    `[[0,B],[Bᵀ,0]]`, otherwise the input itself — in both cases a symmetric matrix (what `eigsh` presupposes). -/
+theorem spectral_adjacency_symmetric (nRow nCol : Nat) (b : Mat α) (fb : Bool) :
+    ((getAdjacency nRow nCol b false fb).1 = true ↔ (fb = true ∨ nRow ≠ nCol ∨ isSymmetric nRow b = false)) ∧
+    (getAdjacency nRow nCol b false fb).2.1 = (if (getAdjacency nRow nCol b false fb).1 then nRow + nCol else nRow) ∧
+    ∀ i j, i < (getAdjacency nRow nCol b false fb).2.1 → j < (getAdjacency nRow nCol b false fb).2.1 →
+      mget (getAdjacency nRow nCol b false fb).2.2 i j = mget (getAdjacency nRow nCol b false fb).2.2 j i := by
+  unfold getAdjacency
+  by_cases hb : (fb || nRow != nCol || !(false || isSymmetric nRow b)) = true
+  · simp only [hb, if_true]
+    refine ⟨?_, by simp, ?_⟩
+    · simp only [true_iff]
+      simp only [Bool.or_eq_true, bne_iff_ne, ne_eq, Bool.not_eq_true', Bool.false_or] at hb
+      rcases hb with (h | h) | h
+      · exact Or.inl h
+      · exact Or.inr (Or.inl h)
+      · exact Or.inr (Or.inr h)
+    · intro i j hi hj
+      simp only [blockAdj, mget_mkMat, hi, hj, if_true]
+      by_cases h1 : i < nRow <;> by_cases h2 : j < nRow <;> simp [h1, h2]
+  · simp only [hb, if_false, Bool.false_eq_true]
+    simp only [Bool.or_eq_true, bne_iff_ne, ne_eq, Bool.not_eq_true', Bool.false_or, not_or, Bool.not_eq_false,
+      not_not] at hb
+    obtain ⟨⟨h1, h2⟩, h3⟩ := hb
+    refine ⟨?_, by simp, ?_⟩
+    · constructor
+      · intro h; cases h
+      · rintro (h | h | h)
+        · exact absurd h h1
+        · exact absurd h2 h
+        · rw [h3] at h; cases h
+    · intro i j hi hj
+      unfold isSymmetric at h3
+      rw [List.all_eq_true] at h3
+      have := h3 i (List.mem_range.mpr hi)
+      rw [List.all_eq_true] at this
+      exact beq_iff_eq.mp (this j (List.mem_range.mpr hj))
 
 /-! ### Spectral -/
 
@@ -135,6 +178,44 @@ theorem spectral_rw_eigen {out : SpectralOut α}
   rw [hvec]
   exact spectralPost_rw_eigen F _ (by omega) _ _ (getRegularization_nonneg _ _) nm hsq _ _ hsol c hc i hi
 
+/-- the regularised random-walk transition matrix `D_reg⁺ (A + α 11ᵀ/n)` as a Mathlib matrix -/
+def transitionMatrix (n : Nat) (a : Mat α) (reg : α) : Matrix (Fin n) (Fin n) α :=
+  Matrix.of fun i j => pinv (Spec.degReg n a reg i) * Spec.aReg n a reg i j
+
+/-- the regularised Laplacian `D_reg − A_reg` as a Mathlib matrix -/
+def laplacianMatrix (n : Nat) (a : Mat α) (reg : α) : Matrix (Fin n) (Fin n) α :=
+  Matrix.of fun i j => (if i = j then Spec.degReg n a reg i else 0) - Spec.aReg n a reg i j
+
+theorem transApply_eq_mulVec (n : Nat) (a : Mat α) (reg : α) (v : Nat → α) (i : Fin n) :
+    Spec.transApply n a reg v i = (transitionMatrix n a reg).mulVec (fun j : Fin n => v j) i := by
+  simp only [Spec.transApply, transitionMatrix, Matrix.mulVec, dotProduct, Matrix.of_apply, sumN_eq_sum,
+    Finset.mul_sum, Fin.sum_univ_eq_sum_range (fun j => pinv (Spec.degReg n a reg i) * Spec.aReg n a reg i j * v j) n]
+  exact Finset.sum_congr rfl fun j _ => by ring
+
+theorem lapApply_eq_mulVec (n : Nat) (a : Mat α) (reg : α) (v : Nat → α) (i : Fin n) :
+    Spec.lapApply n a reg v i = (laplacianMatrix n a reg).mulVec (fun j : Fin n => v j) i := by
+  simp only [Spec.lapApply, laplacianMatrix, Matrix.mulVec, dotProduct, Matrix.of_apply, sumN_eq_sum, sub_mul,
+    Finset.sum_sub_distrib, ite_mul, zero_mul]
+  rw [Finset.sum_ite_eq Finset.univ i, if_pos (Finset.mem_univ i),
+    Fin.sum_univ_eq_sum_range (fun j => Spec.aReg n a reg i j * v j) n]
+
+/-- **C09 / Spectral in matrix form.**  The columns of `eigenvectors_` are eigenvectors of the Mathlib matrix
+    `P = D_reg⁺(A + α11ᵀ/n)`: `P *ᵥ v_c = eigenvalues_[c] • v_c`. -/
+theorem spectral_rw_eigen_matrix {out : SpectralOut α}
+    (h : spectralFit F nRow nCol b nnz fb nc true regParam nm solver = .ok out)
+    (hsq : ∀ i, i < spN nRow nCol b fb →
+      let d := (∑ j ∈ range (spN nRow nCol b fb), mget (spAdj nRow nCol b fb) i j) + spReg nRow nCol b fb regParam
+      F.sqrt d * F.sqrt d = d)
+    (hsol : IsEigenpairs (spOp F nRow nCol b fb regParam true) (spAdj nRow nCol b fb)
+      (spSol F nRow nCol b fb nc regParam solver true).1 (spSol F nRow nCol b fb nc regParam solver true).2)
+    (c : Nat) (hc : c < out.eigenvalues.length) :
+    (transitionMatrix (spN nRow nCol b fb) (spAdj nRow nCol b fb) (spReg nRow nCol b fb regParam)).mulVec
+        (fun j : Fin (spN nRow nCol b fb) => mget out.eigenvectors j c)
+      = vget out.eigenvalues c • (fun i : Fin (spN nRow nCol b fb) => mget out.eigenvectors i c) := by
+  funext i
+  rw [← transApply_eq_mulVec _ _ _ (fun j => mget out.eigenvectors j c) i]
+  exact spectral_rw_eigen F nRow nCol b nnz fb nc regParam nm solver h hsq hsol c hc i i.isLt
+
 /-- **C09 / Spectral, `decomposition='laplacian'`.**  Same for the (regularised) Laplacian `L = D − A`. -/
 theorem spectral_laplacian_eigen {out : SpectralOut α}
     (h : spectralFit F nRow nCol b nnz fb nc false regParam nm solver = .ok out)
@@ -148,6 +229,19 @@ theorem spectral_laplacian_eigen {out : SpectralOut α}
   rw [hval] at hc ⊢
   rw [hvec]
   exact spectralPost_laplacian_eigen F _ (by omega) _ _ (getRegularization_nonneg _ _) nm _ _ hsol c hc i hi
+
+/-- **C09 / Spectral in matrix form, Laplacian.** `L *ᵥ v_c = eigenvalues_[c] • v_c` for `L = D_reg − A_reg`. -/
+theorem spectral_laplacian_eigen_matrix {out : SpectralOut α}
+    (h : spectralFit F nRow nCol b nnz fb nc false regParam nm solver = .ok out)
+    (hsol : IsEigenpairs (spOp F nRow nCol b fb regParam false) (spAdj nRow nCol b fb)
+      (spSol F nRow nCol b fb nc regParam solver false).1 (spSol F nRow nCol b fb nc regParam solver false).2)
+    (c : Nat) (hc : c < out.eigenvalues.length) :
+    (laplacianMatrix (spN nRow nCol b fb) (spAdj nRow nCol b fb) (spReg nRow nCol b fb regParam)).mulVec
+        (fun j : Fin (spN nRow nCol b fb) => mget out.eigenvectors j c)
+      = vget out.eigenvalues c • (fun i : Fin (spN nRow nCol b fb) => mget out.eigenvectors i c) := by
+  funext i
+  rw [← lapApply_eq_mulVec _ _ _ (fun j => mget out.eigenvectors j c) i]
+  exact spectral_laplacian_eigen F nRow nCol b nnz fb nc regParam nm solver h hsol c hc i i.isLt
 
 /-- **C09 / Spectral, order and the skipped pair.**  `eigenvalues_` is in increasing order for the Laplacian and in
     decreasing order for the random walk; exactly one solver pair is not returned. -/
@@ -479,6 +573,43 @@ theorem pca_predict_row {out : PcaOut α} (h : pcaFit F nRow nCol a nnz nc nm so
   · rw [he, hout]
     exact Embedding.pca_predict_row F nRow nCol a _ _ _ nm hsol i hi x hx hsv c (by rw [hout] at hc; exact hc)
   · rw [hout]; rfl
+
+/-- **C09 / PCA: triplets and unit norm.**  The public triplets are the solver's, hence (under the contract) singular
+    triplets of the centred matrix `A − 1μᵀ` of the specification; with `normalized=True` every non-null row of
+    `embedding_row_` has Euclidean norm 1. -/
+theorem pca_triplets_unit {out : PcaOut α} (h : pcaFit F nRow nCol a nnz nc nm solver = .ok out)
+    (hsol : IsSingularTriplets (pcaOperator nRow nCol a) (pcaSol nRow nCol a nc solver).1
+      (pcaSol nRow nCol a nc solver).2.1 (pcaSol nRow nCol a nc solver).2.2)
+    (c : Nat) (hc : c < out.singularValues.length) :
+    (∀ i, i < nRow → ∑ j ∈ range nCol, Spec.centredEntry nRow a i j * mget out.right j c
+        = vget out.singularValues c * mget out.left i c) ∧
+    (∀ j, j < nCol → ∑ i ∈ range nRow, Spec.centredEntry nRow a i j * mget out.left i c
+        = vget out.singularValues c * mget out.right j c) ∧
+    (nm = true → ∀ i, i < nRow →
+      F.sqrt (sqNorm out.singularValues.length out.left i) * F.sqrt (sqNorm out.singularValues.length out.left i)
+        = sqNorm out.singularValues.length out.left i →
+      (∃ c, c < out.singularValues.length ∧ mget out.left i c ≠ 0) →
+      sqNorm out.singularValues.length out.embeddingRow i = 1) := by
+  obtain ⟨_, _, hout⟩ := pcaFit_ok F nRow nCol a nnz nc nm solver h
+  subst hout
+  have hc' : c < (pcaSol nRow nCol a nc solver).1.length := hc
+  obtain ⟨h1, h2⟩ := hsol c hc'
+  refine ⟨?_, ?_, ?_⟩
+  · intro i hi
+    have := h1 i hi
+    simp only [pcaPost]
+    rw [← this]
+    exact Finset.sum_congr rfl fun j hj => by
+      rw [pcaOperator_entry nRow nCol a i j hi (Finset.mem_range.mp hj)]
+  · intro j hj
+    have := h2 j hj
+    simp only [pcaPost]
+    rw [← this]
+    exact Finset.sum_congr rfl fun i hi => by
+      rw [pcaOperator_entry nRow nCol a i j (Finset.mem_range.mp hi) hj]
+  · intro hnm i hi hsq hnn
+    simp only [pcaPost, hnm, if_true] at hsq hnn ⊢
+    exact (normalize_unit F nRow _ _ i hi hsq).1 hnn
 
 end pca
 
